@@ -1,18 +1,24 @@
 package sym
 
 import (
+	"strings"
 	"sync"
 
 	"bmsym/smt"
 )
 
-// Decomposition records x = w0·p1·w1·…·pn·wn introduced by the strings.Fields
-// model (parts pi, separators wi).
+// Decomposition records x = f(parts, separators) introduced by a relational
+// string model (Fields, Split, TrimSpace, TrimRight). Build gives the regular
+// language of x from the languages of the parts.
 type Decomposition struct {
 	Eq    *smt.Term
 	X     *smt.Term
 	Parts []*smt.Term
-	Seps  []*smt.Term
+	Seps  []*smt.Term // model-introduced separator variables (constrained only by the model)
+	Base  []*smt.Term // base language of each part (what the model itself asserts)
+	Build func(partLangs []*smt.Term) *smt.Term
+	// Own are the conjuncts the model itself added about parts and seps
+	Own map[*smt.Term]bool
 }
 
 var (
@@ -26,110 +32,171 @@ func registerDecomp(d *Decomposition) {
 	decompMu.Unlock()
 }
 
+// regexOfFormula translates a boolean formula whose only string variable is
+// v, built from regular atoms, into the language { v | formula }.
+func regexOfFormula(f, v *smt.Term) (*smt.Term, bool) {
+	switch {
+	case f.IsTrue():
+		return smt.SigmaStar, true
+	case f.IsFalse():
+		return smt.App("re.none", smt.RegLan), true
+	}
+	isLowerV := func(t *smt.Term) bool { return t.Op == "uf" && t.Name == "lower" && t.Args[0] == v }
+	switch f.Op {
+	case "not":
+		r, ok := regexOfFormula(f.Args[0], v)
+		if !ok {
+			return nil, false
+		}
+		return smt.ReInter(smt.SigmaStar, smt.ReComp(r)), true
+	case "and", "or":
+		var rs []*smt.Term
+		for _, a := range f.Args {
+			r, ok := regexOfFormula(a, v)
+			if !ok {
+				return nil, false
+			}
+			rs = append(rs, r)
+		}
+		if f.Op == "or" {
+			return smt.ReUnion(rs...), true
+		}
+		r := rs[0]
+		for _, x := range rs[1:] {
+			r = smt.ReInter(r, x)
+		}
+		return r, true
+	case "ite":
+		if f.Sort != smt.Bool {
+			return nil, false
+		}
+		return regexOfFormula(smt.Or(smt.And(f.Args[0], f.Args[1]), smt.And(smt.Not(f.Args[0]), f.Args[2])), v)
+	case "str.in_re":
+		if f.Args[0] == v {
+			return f.Args[1], true
+		}
+	case "=":
+		for i := 0; i < 2; i++ {
+			a, c := f.Args[i], f.Args[1-i]
+			if !c.IsConst() || c.Sort != smt.String {
+				continue
+			}
+			if a == v {
+				return smt.ReLit(c.S), true
+			}
+			if isLowerV(a) {
+				if strings.ToLower(c.S) != c.S {
+					return smt.App("re.none", smt.RegLan), true
+				}
+				return smt.ReCI(c.S), true
+			}
+		}
+	case "str.contains":
+		if f.Args[0] == v && f.Args[1].IsConst() {
+			return smt.ReConcat(smt.SigmaStar, smt.ReLit(f.Args[1].S), smt.SigmaStar), true
+		}
+	case "str.prefixof":
+		if f.Args[1] == v && f.Args[0].IsConst() {
+			return smt.ReConcat(smt.ReLit(f.Args[0].S), smt.SigmaStar), true
+		}
+	case "str.suffixof":
+		if f.Args[1] == v && f.Args[0].IsConst() {
+			return smt.ReConcat(smt.SigmaStar, smt.ReLit(f.Args[0].S)), true
+		}
+	}
+	return nil, false
+}
+
+func stringVarsOf(t *smt.Term) map[*smt.Term]bool {
+	m := map[*smt.Term]bool{}
+	smt.Walk(t, func(x *smt.Term) {
+		if x.Op == "var" && x.Sort == smt.String {
+			m[x] = true
+		}
+	})
+	return m
+}
+
 // ProjectDecomps rewrites, exactly, a conjunction in which the parts of a
-// Fields decomposition are only constrained by regular memberships into one
-// membership of the decomposed string in the product language; the word
-// equation and the fresh variables disappear. Conjunctions in which a part is
-// used in any other way are returned unchanged.
+// registered decomposition are only constrained by regular single-variable
+// formulas into one membership of the decomposed string in the product
+// language; the word equation and the fresh variables disappear. It works
+// inside out, so nested decompositions (Split, then TrimSpace of a part)
+// collapse too. Decompositions whose parts are used in any other way are left
+// alone.
 func ProjectDecomps(conj []*smt.Term) []*smt.Term {
 	flat := smt.And(conj...)
 	var cs []*smt.Term
 	if flat.Op == "and" {
-		cs = flat.Args
+		cs = append(cs, flat.Args...)
 	} else {
 		cs = []*smt.Term{flat}
 	}
-	decompMu.Lock()
-	var found []*Decomposition
-	for _, c := range cs {
-		if d, ok := decomps[c]; ok {
-			found = append(found, d)
-		}
-	}
-	decompMu.Unlock()
-	if len(found) == 0 {
-		return conj
-	}
-	for _, d := range found {
-		owner := map[*smt.Term]int{} // var -> index (parts: i, seps: -1-i)
-		for i, p := range d.Parts {
-			owner[p] = i
-		}
-		for i, w := range d.Seps {
-			owner[w] = -1 - i
-		}
-		mentions := func(t *smt.Term) []*smt.Term {
-			var out []*smt.Term
-			smt.Walk(t, func(x *smt.Term) {
-				if _, ok := owner[x]; ok {
-					out = append(out, x)
-				}
-			})
-			return out
-		}
-		partLang := make([]*smt.Term, len(d.Parts))
-		for i := range partLang {
-			partLang[i] = reNonWSPlus
-		}
-		var rest []*smt.Term
-		ok := true
+	for round := 0; round < 16; round++ {
+		decompMu.Lock()
+		var found []*Decomposition
 		for _, c := range cs {
-			if c == d.Eq {
-				continue
-			}
-			ms := mentions(c)
-			if len(ms) == 0 {
-				rest = append(rest, c)
-				continue
-			}
-			neg := false
-			a := c
-			if a.Op == "not" {
-				neg = true
-				a = a.Args[0]
-			}
-			var v, lang *smt.Term
-			switch {
-			case a.Op == "str.in_re" && a.Args[0].Op == "var":
-				v, lang = a.Args[0], a.Args[1]
-			case a.Op == "=" && a.Args[0].Op == "var" && a.Args[1].IsConst() && a.Args[1].Sort == smt.String:
-				v, lang = a.Args[0], smt.ReLit(a.Args[1].S)
-			case a.Op == "=" && a.Args[1].Op == "var" && a.Args[0].IsConst() && a.Args[0].Sort == smt.String:
-				v, lang = a.Args[1], smt.ReLit(a.Args[0].S)
-			}
-			if v == nil || len(ms) != 1 {
-				ok = false
-				break
-			}
-			idx, owned := owner[v]
-			if !owned {
-				ok = false
-				break
-			}
-			if idx < 0 {
-				// separator constraints are the white-space shapes added by the model itself
-				continue
-			}
-			if neg {
-				lang = smt.ReComp(lang)
-			}
-			partLang[idx] = smt.ReInter(partLang[idx], lang)
-		}
-		if !ok {
-			continue
-		}
-		var rp []*smt.Term
-		rp = append(rp, reWSStar)
-		for i := range d.Parts {
-			rp = append(rp, partLang[i])
-			if i < len(d.Parts)-1 {
-				rp = append(rp, reWSPlus)
-			} else {
-				rp = append(rp, reWSStar)
+			if d, ok := decomps[c]; ok {
+				found = append(found, d)
 			}
 		}
-		rest = append(rest, smt.App("str.in_re", smt.Bool, d.X, smt.ReConcat(rp...)))
-		cs = rest
+		decompMu.Unlock()
+		if len(found) == 0 {
+			return cs
+		}
+		progress := false
+		for _, d := range found {
+			owner := map[*smt.Term]int{}
+			for i, p := range d.Parts {
+				owner[p] = i
+			}
+			for i, w := range d.Seps {
+				owner[w] = -1 - i
+			}
+			partLang := append([]*smt.Term(nil), d.Base...)
+			var rest []*smt.Term
+			ok := true
+			for _, c := range cs {
+				if c == d.Eq {
+					continue
+				}
+				vars := stringVarsOf(c)
+				var mine []*smt.Term
+				for v := range vars {
+					if _, o := owner[v]; o {
+						mine = append(mine, v)
+					}
+				}
+				if len(mine) == 0 {
+					rest = append(rest, c)
+					continue
+				}
+				if d.Own[c] {
+					continue // the model's own shape constraint, already in Base / Build
+				}
+				if len(mine) != 1 || len(vars) != 1 || owner[mine[0]] < 0 {
+					ok = false
+					break
+				}
+				r, good := regexOfFormula(c, mine[0])
+				if !good {
+					ok = false
+					break
+				}
+				i := owner[mine[0]]
+				partLang[i] = smt.ReInter(partLang[i], r)
+			}
+			if !ok {
+				continue
+			}
+			rest = append(rest, smt.App("str.in_re", smt.Bool, d.X, d.Build(partLang)))
+			cs = rest
+			progress = true
+			break
+		}
+		if !progress {
+			return cs
+		}
 	}
 	return cs
 }
